@@ -466,14 +466,18 @@ func c07MissVsRefresh(c *vf.Ctx) {
 	if !c.Active(sub) {
 		return
 	}
-	n := c.N(40, 3000)
+	n := c.N(60, 4500)
 	pool := pcPeerPool()
 	for i := 0; i < n; i++ {
 		if !c.Mine(sub, i) {
 			continue
 		}
 		r := c.Rand(sub, i)
-		scenario := []string{"late-answer-is-an-older-record", "late-answer-is-not-found"}[i%2]
+		scenario := []string{"late-answer-is-an-older-record", "late-answer-is-not-found", "miss-answered-by-the-freshest-source-then-refresh-from-a-lagging-one"}[i%3]
+		if scenario == "miss-answered-by-the-freshest-source-then-refresh-from-a-lagging-one" {
+			c07MissThenLaggingRefresh(c, sub, i, r, pool)
+			continue
+		}
 		npop := 3 + r.Intn(20)
 		c.Cur(sub, i, fmt.Sprintf("%s pop=%d", scenario, npop))
 		src := newScriptSource("src0")
@@ -571,4 +575,77 @@ func c07MissVsRefresh(c *vf.Ctx) {
 		c.Inc("late_miss_answer_cases")
 		c.Distinct(sub, scenario, fmt.Sprint(npop))
 	}
+}
+
+// c07MissThenLaggingRefresh: a provider is first learned by a lookup (both sources asked, the fresher record cached);
+// then the fresher source stops answering and a refresh hears only the lagging one. A reader that saw the fresher
+// record must not be shown the older one afterwards.
+func c07MissThenLaggingRefresh(c *vf.Ctx, sub string, i int, r *rand.Rand, pool []peer.ID) {
+	npop := 3 + r.Intn(20)
+	vNew := 2 + r.Intn(6)
+	vOld := 1 + r.Intn(vNew-1)
+	fresherFirst := r.Intn(2) == 0
+	fails := r.Intn(2) == 0
+	c.Cur(sub, i, fmt.Sprintf("miss-then-lagging-refresh pop=%d fresher=v%d lagging=v%d fresher-source-first=%v fresher-source-then=%s", npop, vNew, vOld, fresherFirst, map[bool]string{true: "fails", false: "no longer lists it"}[fails]))
+	a, b := newScriptSource("fresh"), newScriptSource("lagging")
+	for _, p := range pool[:npop] {
+		a.set(p, 1)
+		b.set(p, 1)
+	}
+	X := pool[100+i%20]
+	a.set(X, vNew)
+	b.set(X, vOld)
+	srcs := []pcache.ProviderSource{a, b}
+	if !fresherFirst {
+		srcs = []pcache.ProviderSource{b, a}
+	}
+	pc, err := pcache.New(pcache.WithSource(srcs...), pcache.WithTTL(time.Hour), pcache.WithRefreshInterval(0), pcache.WithPreload(false))
+	if err != nil {
+		c.Fail(sub, i, "pcache-new", err.Error(), nil)
+		return
+	}
+	var steps []string
+	wit := func() any { return map[string]any{"scenario": "miss-then-lagging-refresh", "steps": steps} }
+	see := func() (int, bool) {
+		for _, pi := range pc.List() {
+			if pi != nil && pi.AddrInfo.ID == X {
+				return versionOf(pi), true
+			}
+		}
+		return 0, false
+	}
+	pi, err := pc.Get(context.Background(), X)
+	if err != nil || pi == nil {
+		c.Fail(sub, i, "lookup-of-a-reported-provider-failed", fmt.Sprint(err), wit())
+		return
+	}
+	first := versionOf(pi)
+	steps = append(steps, fmt.Sprintf("lookup returned v%d", first))
+	if l, ok := see(); ok && l > first {
+		first = l
+	}
+	if fails {
+		a.mu.Lock()
+		a.failing = true
+		a.mu.Unlock()
+	} else {
+		a.del(X)
+	}
+	for k := 0; k < 1+r.Intn(3); k++ {
+		rerr := pc.Refresh(context.Background())
+		l, ok := see()
+		g, gerr := pc.Get(context.Background(), X)
+		steps = append(steps, fmt.Sprintf("refresh err=%v: listed=%v v%d", rerr, ok, l))
+		if !ok || g == nil || gerr != nil {
+			c.Fail(sub, i, "cached-provider-reported-missing", "a provider cached by a lookup is gone after a refresh within its time-to-live", wit())
+			return
+		}
+		if l < first || versionOf(g) < first {
+			c.Fail(sub, i, "reader-saw-older-record", fmt.Sprintf("v%d (list) / v%d (lookup) after v%d", l, versionOf(g), first), wit())
+			return
+		}
+	}
+	c.Eval(1)
+	c.Inc("lookups_followed_by_a_refresh_from_a_lagging_source")
+	c.Distinct(sub, "miss-then-lagging-refresh", fmt.Sprint(fresherFirst, fails, vNew-vOld))
 }
